@@ -354,6 +354,57 @@ Fixpoint vararg_collect (k : nat) (varargs : N) : M N :=
       vararg_collect k' pi
   end.
 
+(* the frame manipulation of TCALL %acc once the callee is known to be the lambda at
+   heap address [lam], run.rs:204-235 *)
+Definition tcall_frame (lam : N) : M bool :=
+  dom a <- stack_get_offset 0; dom argc <- as_argc a;
+  dom s <- get_vm;
+  dom fa <- stack_get (bp s + 1); dom frame_argc <- as_argc fa;
+  if argc =? frame_argc then
+    dom saved_bp <- stack_get (bp s + 4);
+    dom _ <- tcall_copy (N.to_nat argc) 0;
+    dom _ <- set_sp (bp s + 3);
+    dom b <- as_bp saved_bp; dom _ <- set_bp b;
+    dom _ <- set_ip (lam, 0); ret false
+  else
+    let saved_sp := sp s in
+    dom saved_ep <- stack_get (bp s + 2);
+    dom saved_ip <- stack_get (bp s + 3);
+    dom saved_bp <- stack_get (bp s + 4);
+    dom nsp <- usub (bp s) frame_argc;
+    dom _ <- set_sp nsp;
+    dom _ <- tcall_rebuild (N.to_nat argc) saved_sp;
+    dom _ <- push (VArgc argc);
+    dom _ <- push saved_ep;
+    dom _ <- push saved_ip;
+    dom b <- as_bp saved_bp; dom _ <- set_bp b;
+    dom _ <- set_ip (lam, 0); ret false.
+
+(* ENTER, run.rs:237-265 *)
+Definition enter_frame : M bool :=
+  dom s <- get_vm;
+  dom target <- hderef (acc s);
+  dom (lp, cenv) <- (match target with
+                     | VClosure lam env => ret (lam, Some env)
+                     | VLambda _ => dom p <- as_ptr (acc s); ret (p, None)
+                     | _ => fail E_OTHER
+                     end);
+  dom lv <- hget lp; dom l <- as_lambda lv;
+  dom a <- stack_get_offset (-2); dom argc <- as_argc a;
+  if negb (argc =? len (l_args l)) then fail E_OTHER else
+  dom _ <- push (VBp (bp s));
+  dom s1 <- get_vm;
+  dom nb <- usub (sp s1) 4;
+  dom _ <- set_bp nb;
+  match cenv with
+  | None => ret false
+  | Some cep =>
+      dom cev <- hget cep; dom ceid <- as_lexenv cev; dom cslots <- env_slots ceid;
+      dom env <- build_lexical_environment l cep cslots;
+      dom ev <- env_new env; dom evp <- hput ev; dom ei <- as_ptr evp;
+      dom _ <- set_ep ei; ret false
+  end.
+
 (* run.rs:63-316; true = HALT *)
 Definition run_one : M bool :=
   dom op <- read_opcode;
@@ -407,52 +458,9 @@ Definition run_one : M bool :=
       match c with
       | CDone => ret false
       | CLambda lam =>
-          dom a <- stack_get_offset 0; dom argc <- as_argc a;
-          dom s <- get_vm;
-          dom fa <- stack_get (bp s + 1); dom frame_argc <- as_argc fa;
-          if argc =? frame_argc then
-            dom saved_bp <- stack_get (bp s + 4);
-            dom _ <- tcall_copy (N.to_nat argc) 0;
-            dom _ <- set_sp (bp s + 3);
-            dom b <- as_bp saved_bp; dom _ <- set_bp b;
-            dom _ <- set_ip (lam, 0); ret false
-          else
-            let saved_sp := sp s in
-            dom saved_ep <- stack_get (bp s + 2);
-            dom saved_ip <- stack_get (bp s + 3);
-            dom saved_bp <- stack_get (bp s + 4);
-            dom nsp <- usub (bp s) frame_argc;
-            dom _ <- set_sp nsp;
-            dom _ <- tcall_rebuild (N.to_nat argc) saved_sp;
-            dom _ <- push (VArgc argc);
-            dom _ <- push saved_ep;
-            dom _ <- push saved_ip;
-            dom b <- as_bp saved_bp; dom _ <- set_bp b;
-            dom _ <- set_ip (lam, 0); ret false
+          tcall_frame lam
       end
-  | OEnter =>
-      dom s <- get_vm;
-      dom target <- hderef (acc s);
-      dom (lp, cenv) <- (match target with
-                         | VClosure lam env => ret (lam, Some env)
-                         | VLambda _ => dom p <- as_ptr (acc s); ret (p, None)
-                         | _ => fail E_OTHER
-                         end);
-      dom lv <- hget lp; dom l <- as_lambda lv;
-      dom a <- stack_get_offset (-2); dom argc <- as_argc a;
-      if negb (argc =? len (l_args l)) then fail E_OTHER else
-      dom _ <- push (VBp (bp s));
-      dom s1 <- get_vm;
-      dom nb <- usub (sp s1) 4;
-      dom _ <- set_bp nb;
-      match cenv with
-      | None => ret false
-      | Some cep =>
-          dom cev <- hget cep; dom ceid <- as_lexenv cev; dom cslots <- env_slots ceid;
-          dom env <- build_lexical_environment l cep cslots;
-          dom ev <- env_new env; dom evp <- hput ev; dom ei <- as_ptr evp;
-          dom _ <- set_ep ei; ret false
-      end
+  | OEnter => enter_frame
   | ORet =>
       dom s <- get_vm;
       dom a <- stack_get (bp s + 1); dom n <- as_argc a;
